@@ -9,6 +9,7 @@ import (
 	"time"
 
 	"github.com/tidwall/tile38/verif/harness/ev"
+	"github.com/tidwall/tile38/verif/harness/gen"
 	"github.com/tidwall/tile38/verif/harness/model"
 	"github.com/tidwall/tile38/verif/harness/t38"
 	"pgregory.net/rapid"
@@ -194,6 +195,58 @@ func TestC19_ExpiryPath(t *testing.T) {
 				}
 				c.Sample(map[string]any{"sets": s, "short": ec.Short})
 			}
+		}
+	})
+}
+
+// TestC19_BoundsPrecision: BOUNDS against recomputation when the objects that
+// define an edge differ by less than one float32 ulp (the spatial index keys
+// are float32) and when circle objects, whose index box is wider than their
+// own rectangle, sit next to them.
+func TestC19_BoundsPrecision(t *testing.T) {
+	c := ev.New("C19", "bounds-precision", "exploration")
+	t.Cleanup(c.Flush)
+	c.Rule("programs of 4-14 commands on one collection: points whose coordinates are a drawn base plus 0-5 steps of 1e-8 degrees (several points share a float32 index key), rectangles, circle features of 1-500 km near them, overwrites and deletes; after every step the full counter/bounds/access-path comparison of the counters sub-check. Non-trivial: two objects within 1e-7 degrees define an edge, or a circle object is present; distinct by command sequence.")
+	ev.Rapid("bounds-precision", ev.Pick(250, 2500))
+	rapid.Check(t, func(rt *rapid.T) {
+		baseLat := float64(rapid.IntRange(-80, 80).Draw(rt, "blat"))
+		baseLon := float64(rapid.IntRange(-170, 170).Draw(rt, "blon"))
+		near := func(base float64, label string) string {
+			return strconv.FormatFloat(base+float64(rapid.IntRange(0, 5).Draw(rt, label))*1e-8, 'f', 8, 64)
+		}
+		var p program
+		n := rapid.IntRange(4, 14).Draw(rt, "n")
+		circle := false
+		for i := 0; i < n; i++ {
+			id := fmt.Sprintf("o%d", rapid.IntRange(0, 5).Draw(rt, "id"))
+			switch rapid.IntRange(0, 9).Draw(rt, "kind") {
+			case 0:
+				p.Cmds = append(p.Cmds, []string{"DEL", "k1", id})
+			case 1:
+				circle = true
+				r := rapid.SampledFrom([]string{"1000", "50000", "500000"}).Draw(rt, "r")
+				p.Cmds = append(p.Cmds, []string{"SET", "k1", id, "OBJECT", fmt.Sprintf(`{"type":"Feature","geometry":{"type":"Point","coordinates":[%s,%s]},"properties":{"type":"Circle","radius":%s,"radius_units":"m"}}`, near(baseLon, "clon"), near(baseLat, "clat"), r)})
+			case 2:
+				p.Cmds = append(p.Cmds, []string{"SET", "k1", id, "BOUNDS", near(baseLat, "b1"), near(baseLon, "b2"), near(baseLat+1, "b3"), near(baseLon+1, "b4")})
+			default:
+				p.Cmds = append(p.Cmds, []string{"SET", "k1", id, "POINT", near(baseLat, "lat"), near(baseLon, "lon")})
+			}
+		}
+		c.Case()
+		runProgram(rt, c, p, true)
+		var b strings.Builder
+		for _, cmd := range p.Cmds {
+			b.WriteString(strings.Join(cmd[:3], ",") + ";")
+			if len(cmd) > 4 {
+				b.WriteString(cmd[len(cmd)-1] + ";")
+			}
+		}
+		c.NonTrivial(b.String())
+		if circle {
+			c.Label("circle-next-to-points")
+		}
+		if c.WantSample() {
+			c.Sample(map[string]any{"cmds": gen.Describe(p.Cmds)})
 		}
 	})
 }
